@@ -7,4 +7,5 @@ MCProg == (1 :> <<[api |-> "put", key |-> "k3", val |-> "a", chunks |-> 1]>>) @@
 MCPre == {[key |-> "k1", val |-> "o1"], [key |-> "k2", val |-> "o2"]}
 MCDebris == {[name |-> "old", age |-> 4000]}
 NoKeyShards == <<>>
+NoPreRO == {}
 ====
